@@ -9,6 +9,8 @@ import Mappy.Gen.Schemas
 import Mappy.Gen.Patterns
 import Mappy.Lemmas.Assoc
 import Mappy.Props.C08
+import Mappy.Lemmas.SchemaPaths
+import Mappy.Lemmas.MessagesTotal
 
 namespace Mappy.Validator
 
@@ -334,3 +336,41 @@ def fileHiddenOK (f : Str × J) : Bool :=
 theorem C07_files_hidden_ok : ∀ f ∈ Gen.files, fileHiddenOK f = true := by decide +kernel
 
 end Mappy.Schema
+
+namespace Mappy.Validator
+open DictUtils (PathEl)
+open Schema (errs Env errs_paths Resolves)
+
+theorem errorMessages_total (root : J) : (ps : List (List PathEl)) → (∀ p ∈ ps, ∃ m, createMessage root p = .ok m) →
+    ∃ ms, errorMessages root ps = .ok ms ∧ ms.length = ps.length
+  | [], _ => ⟨[], rfl, rfl⟩
+  | p :: r, h => by
+    obtain ⟨m, hm⟩ := h p (by simp)
+    obtain ⟨ms, hms, hl⟩ := errorMessages_total root r (fun q hq => h q (by simp [hq]))
+    exact ⟨m :: ms, by simp [errorMessages, hm, hms], by simp [hl]⟩
+
+/-- **C07_messages_total** — whatever the schema (any environment of files, any schema node, any recursion budget) and
+whatever it finds wrong with a Mapfile dictionary as `loads` builds it (lower-case unique keys, objects in lists typed) that carries no line-number bookkeeping, turning the errors into messages
+never fails: every path the schema evaluator reports can be walked in the caller's (not lower-cased) dictionary, its
+owner has a `__type__` to name in the message, and there is exactly one message per error. This is the totality half
+of "validate returns a list"; `fix: 7221fce` (errors on items of list-valued keywords) is what made it true. -/
+theorem C07_messages_total (env : Env) (fuel : Nat) (schema : J) (kvs : Fields)
+    (hp : plainMD (.dict kvs) = true) (ht : typeStr kvs = true) :
+    ∃ ms, errorMessages (.dict kvs) ((errs env fuel schema (convertLowercase (.dict kvs)) []).map (·.1)) = .ok ms
+      ∧ ms.length = (errs env fuel schema (convertLowercase (.dict kvs)) []).length := by
+  have := errorMessages_total (.dict kvs) ((errs env fuel schema (convertLowercase (.dict kvs)) []).map (·.1)) (by
+    intro p hpm
+    obtain ⟨e, he, rfl⟩ := List.mem_map.mp hpm
+    obtain ⟨rel, hrel, hres⟩ := errs_paths env fuel schema _ [] e he
+    simp only [List.nil_append] at hrel
+    obtain ⟨y, hy, _⟩ := nav_of_resolves (.dict kvs) hp rel hres
+    rw [hrel]
+    exact createMessage_total kvs hp ht rel y hy)
+  simpa using this
+
+/-- the premises are met by a real dictionary: a LAYER with a CLASS list and a list-valued keyword -/
+example : plainMD (.dict [(s%"__type__", .str s%"layer"), (s%"name", .str s%"a"), (s%"extent", .list [.int 1, .int 2]),
+      (s%"classes", .list [.dict [(s%"__type__", .str s%"class"), (s%"name", .int 5)]])]) = true
+    ∧ typeStr [(s%"__type__", .str s%"layer")] = true := by decide
+
+end Mappy.Validator
